@@ -497,8 +497,31 @@ static int run_one(void)
 		if (c == MC_EXIT_ASAN) {
 			if (!XB->rule[0])
 				snprintf((char *)XB->rule, sizeof(XB->rule), "sanitizer");
-			if (!XB->msg[0])
-				snprintf((char *)XB->msg, MSGMAX, "sanitizer report (see stderr excerpt)");
+			if (!XB->msg[0]) {
+				/* identify the finding by the sanitizer's own summary / first diagnostic line */
+				static char eb[ERRMAX];
+				char *p, *q, *loc;
+				read_err(eb, ERRMAX);
+				p = strstr(eb, "SUMMARY: ");
+				if (!p)
+					p = strstr(eb, "runtime error:");
+				if (p) {
+					q = strchr(p, '\n');
+					if (q)
+						*q = 0;
+					loc = strstr(eb, "Location is global '");
+					if (loc) {
+						char *e = strchr(loc + 20, '\'');
+						if (e)
+							*e = 0;
+						snprintf((char *)XB->msg, MSGMAX, "%s [global %s]", p, loc + 20);
+					} else {
+						snprintf((char *)XB->msg, MSGMAX, "%s", p);
+					}
+				} else {
+					snprintf((char *)XB->msg, MSGMAX, "sanitizer report (see stderr excerpt)");
+				}
+			}
 			return 2;
 		}
 		snprintf((char *)XB->rule, sizeof(XB->rule), "unexpected-exit");
